@@ -16,6 +16,20 @@ CHECKS = {
             "DESIGN.md 5/C13"),
 }
 
+CHECKS.update({
+    "C01": ("seeded hypothesis over a statement grammar, line/token mutation of real files and raw byte files, driving driver.main in-process; crash bucketing + delta debugging",
+            "Totality of a whole run over generated source trees: no escaping exception, exit status in {0,2,3}, every module analysed or reported "
+            "with its path, output inventory complete, unparsable unimported file is inert (metamorphic). Sampled, not exhaustive: absence is not established.",
+            "Hang clause approximated by a 90 s alarm confirmed in a fresh process. Inputs restricted to trees pydoctor documents as acceptable (roots exist, packages have __init__.py).",
+            "DESIGN.md 5/C01"),
+    "C19": ("exhaustive bounded enumeration + seeded hypothesis vs an executable reading of the visitor docstrings; recording extensions on the real ASTBuilder",
+            "Every ordered tree of <=4 (thorough <=5) nodes x every pruning assignment x 20 extension-timing sets is walked by the real Visitor.walkabout and the trace "
+            "compared event by event with the documented contract; the real AST builder is walked over grammar-generated modules with recording extensions of all four timings "
+            "and the scope stack is checked after every module. Decided below the bound, sampled above.",
+            "Pruning raised by extensions or in depart_ is outside the statement; expression nodes entered through generic_visit (visit only, by its documentation) are not required to be left.",
+            "DESIGN.md 5/C19"),
+})
+
 NOT_YET = {}
 
 
